@@ -31,7 +31,7 @@ impl BitField {
     pub fn unset(&mut self, bit: u64) ensures final(self)@ == old(self)@.remove(bit) { unimplemented!() }
     #[verifier::external_body]
     pub fn contains_any(&self, other: &BitField) -> (r: bool)
-        ensures r == !(self@.intersect(other@) =~= vstd::set::Set::<u64>::empty()) { unimplemented!() }
+        ensures r == !(self@.intersect(other@) =~= vstd::set::Set::<u64>::empty()), !r ==> self@.disjoint(other@) { unimplemented!() }
     #[verifier::external_body]
     pub fn contains_all(&self, other: &BitField) -> (r: bool)
         ensures r == other@.subset_of(self@) { unimplemented!() }
